@@ -163,7 +163,11 @@ func (fx *FnExec) streamCall(in ssa.Instruction, c *ssa.CallCommon, args []Val, 
 		return true
 	case "(*bytes.Buffer).Bytes":
 		b := fx.term(args[0])
-		arr := fx.freshRef("bytes")
+		// the result is a view of the buffer's own storage: not a new object (whoever keeps it
+		// shares memory with the buffer, which matters when the buffer goes back to a pool)
+		fx.declareFun("bufStorage", []string{"Int"}, "Int")
+		arr := "(bufStorage " + b + ")"
+		fx.assume("(and (> " + arr + " 0) (< " + arr + " " + fx.allocBase() + "))")
 		ln := fx.havoc("byteslen", "Int")
 		fx.assumeGlobal("(and (>= " + ln + " 0) (<= " + ln + " 4611686018427387904))")
 		fx.setHeap("G_ditems", "(Array Int "+itemsSort+")", "(store "+fx.ditems()+" "+arr+" (select "+fx.witems()+" "+b+"))")
